@@ -31,6 +31,7 @@ import (
 const (
 	DenomZero  = "uzero"  // never minted: zero supply
 	DenomThree = "uthree" // positive supply, held by one account
+	DenomFour  = "ufour"  // positive supply, held by the same single account
 )
 
 // GovPatch makes governance fast and cheap: 1 wei deposit, 10 s voting period (2 blocks).
@@ -86,7 +87,8 @@ func NewRegChain(o RegOpts) *chain.Chain {
 	}
 	holder := chain.NewAcct("holder3")
 	co.ExtraAccts = []authtypes.GenesisAccount{authtypes.NewBaseAccount(holder.Acc(), nil, 0, 0), authtypes.NewBaseAccount(ProberAcct.Acc(), nil, 0, 0)}
-	held := sdk.NewCoins(sdk.NewInt64Coin(DenomThree, 77))
+	// the single holder of uthree / ufour also has wei for gas: it can burn the whole supply of those denominations
+	held := sdk.NewCoins(sdk.NewInt64Coin(DenomThree, 77), sdk.NewInt64Coin(DenomFour, 55), sdk.NewInt64Coin(chain.Denom, 50_000_000))
 	for i := 0; i < o.ManyDenoms; i++ {
 		held = held.Add(sdk.NewInt64Coin(ManyDenom(i), 5))
 	}
@@ -201,6 +203,29 @@ func SetDisabled(c *chain.Chain, addr common.Address, disabled bool) (res string
 	}
 	meta.Disabled = disabled
 	if err := k.SetCustomPrecompiledContractMeta(ctx, *meta, false); err != nil {
+		return "error: " + trunc(err.Error(), 120)
+	}
+	c.Deliver()
+	return "ok"
+}
+
+// Holder is the only account holding DenomThree and DenomFour.
+var Holder = chain.NewAcct("holder3")
+
+// MintBack mints amount of denom to the evm module account (a minter) and sends it to Holder: there is no message that mints an
+// arbitrary denomination, so the supply is restored through the bank keeper between two blocks.
+func MintBack(c *chain.Chain, denom string, amount int64) (res string) {
+	defer func() {
+		if r := recover(); r != nil {
+			res = "panic: " + trunc(fmt.Sprint(r), 120)
+		}
+	}()
+	ctx := Uncached(c)
+	coins := sdk.NewCoins(sdk.NewInt64Coin(denom, amount))
+	if err := c.App.BankKeeper.MintCoins(ctx, "evm", coins); err != nil {
+		return "error: " + trunc(err.Error(), 120)
+	}
+	if err := c.App.BankKeeper.SendCoinsFromModuleToAccount(ctx, "evm", Holder.Acc(), coins); err != nil {
 		return "error: " + trunc(err.Error(), 120)
 	}
 	c.Deliver()
